@@ -1,6 +1,7 @@
 package net
 
 import (
+	"crypto/ecdsa"
 	"encoding/binary"
 	"fmt"
 	"math/rand"
@@ -121,6 +122,25 @@ func findNodesResponder(c map[string]any, seed int64) (map[string]any, error) {
 			n := nodeAtLd(rng, bid, ld, ipOfClass(rng, classes[i%3], 10+i), 30000+i, 0, 1)
 			add(n, i%2 == 0)
 		}
+	case "movedAfterCheck":
+		// entries that passed a liveness check and then changed their endpoint (a newer record from an inbound contact): their
+		// credit stays above zero, their verified status is gone - they are not "liveness-checked" any more (sweep mutant G2/30-C11)
+		for i := 0; i < 10; i++ {
+			ld := []int{256, 256, 255, 254}[i%4]
+			var k *ecdsa.PrivateKey
+			for tries := 0; tries < 4000; tries++ {
+				k = mustKey(rng)
+				if enode.LogDist(bid, enode.PubkeyToIDV4(&k.PublicKey)) == ld {
+					break
+				}
+			}
+			n1 := mkENR(rng, k, ipOfClass(rng, "lan", 10+i), 30000+i, 0, 1)
+			add(n1, true)
+			if i%2 == 0 {
+				n2 := mkENR(rng, k, ipOfClass(rng, "lan", 60+i), 33000+i, 0, 2)
+				vt.AddInboundLoop(n2)
+			}
+		}
 	case "fullTight":
 		for i := 0; i < 16; i++ { // 231-byte records: five fit only if the message overhead is forgotten
 			cls := "lan"
@@ -153,6 +173,8 @@ func findNodesResponder(c map[string]any, seed int64) (map[string]any, error) {
 		dists = []int{256, 256, 255, 256}
 	case "over":
 		dists = []int{300, 257, 256, 65535}
+	case "overonly": // invalid distances only: nothing is requested (sweep mutant G2/33-C11 clamped them to 256)
+		dists = []int{300, 65535, 257}
 	case "all":
 		for d := 0; d <= 255; d++ { // 256 entries: the SSZ limit
 			dists = append(dists, 256-d)
@@ -294,6 +316,21 @@ func findNodesAsker(seed int64, variant int) (map[string]any, error) {
 	// a repeat of an earlier record
 	addRec(good[0], true, true, true, nil)
 	addRec(good[1], true, true, true, nil)
+	// no signature at all: the "null" identity scheme go-ethereum keeps for its own tests (sweep mutant G2/37-C11 admitted it)
+	{
+		var r enr.Record
+		r.Set(enr.IP(ipOfClass(rng, "lan", 145)))
+		r.Set(enr.UDP(30303))
+		r.SetSeq(1)
+		var nid enode.ID
+		for tries := 0; tries < 4000; tries++ {
+			rng.Read(nid[:])
+			if inReq(enode.LogDist(rid, nid)) {
+				break
+			}
+		}
+		addRec(enode.SignNull(&r, nid), false, true, false, nil)
+	}
 	// signature broken: one byte of the signed content changed after signing
 	addRec(nodeAtLd(rng, rid, 256, ipOfClass(rng, "lan", 140), 30303, 0, 1), false, true, false, func(b []byte) []byte {
 		c := append([]byte(nil), b...)
